@@ -19,6 +19,7 @@ type crossSummary struct {
 	Reads      int            `json:"clock_reads_checked"`
 	Crossings  int            `json:"midnight_crossings_by_sleep"`
 	Zones      map[string]int `json:"zones"`
+	FarDates   int            `json:"far_dates_checked"`
 	ClockMin   string         `json:"clock_min"`
 	ClockMax   string         `json:"clock_max"`
 	Violations []struct {
@@ -37,6 +38,9 @@ type crossResult struct {
 	ClockMax   string
 	Violations []string // "class|bubble|detail"
 	GoVersion  string
+	FarDates   int
+	Bubbles386 int64 // bubbles executed by the GOARCH=386 build (bubble numbers Bubbles .. Bubbles+Bubbles386-1)
+	Reads386   int
 }
 
 func runSynctest(b *build, seed uint64, bubbles int64, par int) (*crossResult, error) {
@@ -93,21 +97,35 @@ func runSynctest(b *build, seed uint64, bubbles int64, par int) (*crossResult, e
 	if out, err := runCmd(dir, env, goBin, "test", "-c", "-o", "cross.test", "."); err != nil {
 		return nil, &buildError{"synctest engine build (go1.26.8)", out, err}
 	}
+	// the same engine for a platform whose int has 32 bits
+	if out, err := runCmd(dir, append(append([]string{}, env...), "GOARCH=386", "CGO_ENABLED=0"), goBin, "test", "-c", "-o", "cross386.test", "."); err != nil {
+		return nil, &buildError{"synctest engine build (go1.26.8, GOARCH=386)", out, err}
+	}
 	ver, _ := runCmd(dir, env, goBin, "version")
 	res := &crossResult{Bubbles: bubbles, Zones: map[string]int{}, GoVersion: strings.TrimSpace(ver)}
-	per := (bubbles + int64(par) - 1) / int64(par)
+	res.Bubbles386 = bubbles / 2
+	per := (bubbles + res.Bubbles386 + int64(par) - 1) / int64(par)
 	var wg sync.WaitGroup
 	var mu sync.Mutex
 	var firstErr error
+	type piece struct {
+		from, to int64
+		bin      string
+		is386    bool
+	}
+	var pieces []piece
 	for from := int64(0); from < bubbles; from += per {
-		to := from + per
-		if to > bubbles {
-			to = bubbles
-		}
+		pieces = append(pieces, piece{from, min(from+per, bubbles), "cross.test", false})
+	}
+	for from := bubbles; from < bubbles+res.Bubbles386; from += per {
+		pieces = append(pieces, piece{from, min(from+per, bubbles+res.Bubbles386), "cross386.test", true})
+	}
+	for _, pc := range pieces {
+		from, to, bin, is386 := pc.from, pc.to, pc.bin, pc.is386
 		wg.Add(1)
-		go func(from, to int64) {
+		go func(from, to int64, bin string, is386 bool) {
 			defer wg.Done()
-			c := exec.Command(filepath.Join(dir, "cross.test"), "-test.run", "TestCross", "-test.count", "1", "-test.timeout", "60m")
+			c := exec.Command(filepath.Join(dir, bin), "-test.run", "TestCross", "-test.count", "1", "-test.timeout", "60m")
 			c.Dir = dir
 			c.Env = append([]string{"PATH=" + os.Getenv("PATH"), "HOME=" + os.Getenv("HOME"), "TZ=UTC", "GOMAXPROCS=2"},
 				fmt.Sprintf("VERIF_SEED=%d", seed), fmt.Sprintf("CROSS_FROM=%d", from), fmt.Sprintf("CROSS_TO=%d", to))
@@ -121,6 +139,10 @@ func runSynctest(b *build, seed uint64, bubbles int64, par int) (*crossResult, e
 					if json.Unmarshal([]byte(strings.TrimPrefix(l, "CROSSSUMMARY ")), &s) == nil {
 						found = true
 						res.Reads += s.Reads
+						res.FarDates += s.FarDates
+						if is386 {
+							res.Reads386 += s.Reads
+						}
 						res.Crossings += s.Crossings
 						for k, v := range s.Zones {
 							res.Zones[k] += v
@@ -132,7 +154,11 @@ func runSynctest(b *build, seed uint64, bubbles int64, par int) (*crossResult, e
 							res.ClockMax = s.ClockMax
 						}
 						for _, v := range s.Violations {
-							res.Violations = append(res.Violations, fmt.Sprintf("%s|%d|%s", v.Class, v.Bubble, v.Detail))
+							d := v.Detail
+							if is386 {
+								d += " [GOARCH=386 build of the engine]"
+							}
+							res.Violations = append(res.Violations, fmt.Sprintf("%s|%d|%s", v.Class, v.Bubble, d))
 						}
 					}
 				}
@@ -140,7 +166,7 @@ func runSynctest(b *build, seed uint64, bubbles int64, par int) (*crossResult, e
 			if !found && firstErr == nil {
 				firstErr = fmt.Errorf("synctest engine produced no summary (%v): %s", err, tail(string(out), 1500))
 			}
-		}(from, to)
+		}(from, to, bin, is386)
 	}
 	wg.Wait()
 	if firstErr != nil {
